@@ -1,7 +1,7 @@
 import Wx.Job.C06
 import Wx.Job.C07b
 import Wx.Job.C10b
-import Wx.Job.Api
+import Wx.Job.ApiThm
 import Wx.Job.C06w
 /-! # C06 — Graceful stop: signal first, no kill before the grace period, kill at expiry
 
